@@ -50,7 +50,7 @@ type refModel struct {
 type refEntry struct {
 	h      int // handshake index
 	class  int // checksum class
-	minCap int // minimum capacity in force since this entry (updated on every step)
+	minCap int // minimum capacity in force at this and every later checked handshake (forgetting happens when handshakes are added, not when the capacity changes)
 }
 
 // must: the implementation has to refuse h now. may: it is allowed to refuse h now.
@@ -75,16 +75,19 @@ func (m *refModel) add(h, class int) {
 	if m.cap == 0 {
 		return // history disabled: nothing is checked, nothing is remembered
 	}
+	for i := range m.log {
+		if m.cap < m.log[i].minCap {
+			m.log[i].minCap = m.cap
+		}
+	}
 	m.log = append(m.log, refEntry{h, class, m.cap})
 }
 
+// resize: a change of capacity forgets nothing by itself (a history switched off and on again
+// with nothing checked in between still knows what it knew); what must be remembered is bounded by
+// the capacities in force when later handshakes are checked.
 func (m *refModel) resize(n int) {
 	m.cap = n
-	for i := range m.log {
-		if n < m.log[i].minCap {
-			m.log[i].minCap = n
-		}
-	}
 }
 
 type seqCase struct {
